@@ -76,6 +76,15 @@ def stage1(prop, tier, v, cov):
             g = vlib.tlc("TokenWindow", tw(d), timeout=900)
             if g.invariant != inv:
                 v.inconclusive.append("vacuity guard failed: TokenWindow with MaxDelta=%d did not violate %s" % (d, inv))
+        # the same two laws for every pair of instants, by proof (tlapm, SMT back end)
+        ok, n, wall, out = vlib.tlapm("TokenWindowProof", timeout=600)
+        log("  tlapm TokenWindowProof: %s (%d obligations, %.1fs)" % ("all proved" if ok else "NOT proved", n, wall))
+        if ok:
+            cov["proofs"] = [dict(module="TokenWindowProof", obligations=n, backend="tlapm/SMT", wall_s=round(wall, 1),
+                                  theorems=["HonouredTenMinutes: for all T <= U, U - T <= 600 => accepted",
+                                            "DeadAfterFifteen: for all T <= U, accepted => U - T < 900"])]
+        else:
+            v.inconclusive.append("tlapm did not prove TokenWindowProof: %s" % out[-400:])
     cov["states"] = st
     cov["transitions"] = tr
 
